@@ -77,7 +77,7 @@ var quants = []string{"?", "*", "+", "{2}"}
 
 type generator struct {
 	atoms []atom
-	abc   bool // the atom set contains "abc": the sequence "a" "bc" is left out (same printed form)
+	abc   bool   // the atom set contains "abc": the sequence "a" "bc" is left out (same printed form)
 	f     [][]ex // factors by size
 	bp    [][]ex // sequences of >=1 factors by size (including lone alternation groups)
 	alt   [][]ex // bare alternations (>=2 branches) by size
